@@ -65,7 +65,7 @@ def run(ctx):
                 "fact_internal_binds", "fact_policy", "fact_best_practices_conditions", "fact_acceptable_algs_asymmetric",
                 "fact_registered_first_segments", "fact_default_addresses_differ", "fact_auth_types", "configure_auth_sound",
                 "fact_authorized_keys", "authorized_keys_sound", "commented_out_line_is_dead", "text_after_hash_is_ignored",
-                "fact_middleware_stateless", "decision_independent_of_history"]
+                "fact_middleware_stateless", "decision_independent_of_history", "fact_middleware_order"]
     for r in required:
         if not any(t.endswith("Props." + r) for t in thms):
             ctx.oblige("thm-present:" + r, False, "theorem missing or its module does not build")
@@ -169,7 +169,8 @@ def http_part(ctx, out):
     forms, statuses, creds, methods = Counter(), Counter(), Counter(), Counter()
     distinct = set()
     seen_sig = set()
-    n_req = o_bypass = o_401 = o_public = o_abort = 0
+    bursts = {}
+    n_req = o_bypass = o_401 = o_public = o_abort = o_429 = 0
     o_cfg = 0
     for i, line in enumerate(impl):
         if i >= len(ops) or not ops[i]:
@@ -201,11 +202,18 @@ def http_part(ctx, out):
             distinct.add((op["eng"], op["lis"], op["m"], op["t"], op["cred"]))
         eng = engines.get(op["eng"], {})
 
+        if op.get("tag") == "burst":
+            bursts.setdefault(op["eng"], []).append(ops[i])
+
         def report(kind, what):
             sig = f"C04:{kind}:{form}"
             if sig in seen_sig:
                 return
             seen_sig.add(sig)
+            if kind == "auth-failure-answered-429":   # needs the requests that exhausted the limiter before it
+                ctx.violation(sig, f"{what}: {op['m']} {op.get('show')} on engine {op['eng']}/{op['lis']} with credential '{op['cred']}' -> {line}",
+                              f"{kind}-{form}.jsonl", "\n".join(bursts.get(op["eng"], []) + ([] if op.get("tag") == "burst" else [ops[i]])))
+                return
             ctx.violation(sig, f"{what}: {op['m']} {op.get('show')} on engine {op['eng']}/{op['lis']} with credential '{op['cred']}' -> {line}",
                           f"{kind}-{form}.jsonl", ops[i])
 
@@ -218,6 +226,12 @@ def http_part(ctx, out):
             elif user != "user:" + owner:
                 o_bypass += 1
                 report("wrong-user", f"handler under /internal saw {user}, token owner is {owner}")
+        # O6 an authentication failure is answered 401, never by a later stage (429 of the rate limiter …): a request without a
+        # valid credential whose target is a guarded route must not consume rate-limiter budget
+        if eng.get("auth") and status == 429 and (VALID_CREDS_E if op["eng"] == "E" else VALID_CREDS).get(op["cred"]) is None:
+            o_429 += 1
+            report("auth-failure-answered-429", "a request without a valid credential was answered 429 by the internal rate limiter "
+                   "(it ran before authentication and its budget was used up by unauthenticated requests) instead of 401")
         # O5 every request gets an HTTP answer: a connection that is aborted without a status line means the server
         # panicked (net/http recovers per connection) — "every failure is answered 401"
         if status <= 0:
@@ -235,9 +249,10 @@ def http_part(ctx, out):
     ctx.oblige("oracle:401-has-no-effect(impl)", o_401 == 0, f"{o_401} requests")
     ctx.oblige("oracle:unknown-auth-type-or-bad-keys-file-is-an-error(impl)", o_cfg == 0, f"{o_cfg} configurations")
     ctx.oblige("oracle:every-request-is-answered(impl)", o_abort == 0, f"{o_abort} aborted connections")
+    ctx.oblige("oracle:auth-failures-are-401-not-429(impl)", o_429 == 0, f"{o_429} requests")
     ctx.oblige("oracle:internal-routes-never-on-public-listener(impl)", o_public == 0, f"{o_public} requests")
 
-    correspondence(ctx, "http", impl, model, bad, ops, o_bypass + o_401 + o_public + o_cfg + o_abort)
+    correspondence(ctx, "http", impl, model, bad, ops, o_bypass + o_401 + o_public + o_cfg + o_abort + o_429)
     d = {"requests": n_req, "target_forms": dict(forms), "status": {str(k): v for k, v in sorted(statuses.items())},
          "credential_kinds": dict(creds), "methods": dict(methods), "other_differential_lines": len(impl) - n_req}
     ctx.cov["samples"] = [ops[1][:300] if len(ops) > 1 else "", impl[1][:100] if len(impl) > 1 else ""]
